@@ -299,7 +299,10 @@ func randCfg(r *hx.Rng, k *kind) cfg {
 	} else if r.Chance(10) && c.bmode != "noapi" {
 		c.sasl = true
 	}
-	if c.sasl || c.bmode == "noapi" {
+	if k.key == 18 && c.umax == "miss" {
+		c.sasl = false // without the ApiVersions key the client is pinned pre-0.10: no table, no SASL handshake
+	}
+	if c.sasl || c.bmode == "noapi" || k.key == 18 && c.umax == "miss" {
 		// kfake capped below 1.0 has no SASLAuthenticate and cannot serve a SASL client; a client pinned pre-0.10
 		// sends its own maxima for every other key, which a capped kfake refuses
 		c.kfcap = "-"
@@ -312,7 +315,7 @@ func gen(a hx.Args) {
 	// 1. boundary grid on a few kinds: every bound below / at / above a pivot, missing, -1
 	gridKinds := []string{"metadata", "findcoord2", "offsetfetch2", "apiversions", "initapi", "saslhs"}
 	if a.Tier == "thorough" {
-		gridKinds = append(gridKinds, "listoffsets", "findcoord1", "offsetfetch1", "produce", "fetch", "saslauth", "initpid", "key42")
+		gridKinds = append(gridKinds, "listoffsets", "produce", "saslauth")
 	}
 	for _, kn := range gridKinds {
 		k := kindByName(kn)
@@ -372,14 +375,14 @@ func gen(a hx.Args) {
 		k := kindByName(fmt.Sprintf("key%d", key))
 		n := 1
 		if a.Tier == "thorough" {
-			n = 6
+			n = 3
 		}
 		for i := 0; i < n; i++ {
 			randCfg(r, k).emit()
 		}
 	}
 	// 3. random placements on the shaped kinds
-	for i := 0; i < a.N(450, 5000); i++ {
+	for i := 0; i < a.N(450, 1000); i++ {
 		k := &kinds[r.Intn(len(kinds))]
 		randCfg(r, k).emit()
 	}
@@ -671,7 +674,8 @@ func runCase(t []string) string {
 	if k == nil || hx.Atoi(t[2]) != int64(k.key) || hx.Atoi(t[3]) != int64(cmaxOf(k.key)) {
 		return "bad-op"
 	}
-	if _, ok := kfcaps[c.kfcap]; !ok && c.kfcap != "-" || c.kfcap != "-" && (c.sasl || c.via == "flow" || c.bmode == "noapi") || c.via == "flow" && c.bmode == "noapi" {
+	if _, ok := kfcaps[c.kfcap]; !ok && c.kfcap != "-" || c.kfcap != "-" && (c.sasl || c.via == "flow" || c.bmode == "noapi") || c.via == "flow" && c.bmode == "noapi" ||
+		k.key == 18 && c.umax == "miss" && (c.sasl || c.kfcap != "-") {
 		return "bad-op"
 	}
 	okVia := false
@@ -776,7 +780,13 @@ wait:
 	}
 	tick.Stop()
 	cancel()
-	cl.Close()
+	closed := make(chan struct{})
+	go func() { cl.Close(); close(closed) }()
+	select {
+	case <-closed:
+	case <-time.After(4 * time.Second):
+		hx.St.Inc("client-close-stuck") // the client is abandoned; its later frames belong to older connections and are ignored
+	}
 
 	e.mu.Lock()
 	frames := e.frames
@@ -859,8 +869,8 @@ wait:
 func (e *env) describe(c *cfg, focalKey int16, f frame, umaxV *kversion.Versions, umaxSet bool, uminV *kversion.Versions) string {
 	bmode, bmin, bmax := "adv", int16(-1), int16(-1)
 	switch {
-	case c.bmode == "noapi":
-		bmode = "noapi"
+	case c.bmode == "noapi", umaxSet && umaxV != nil && !umaxV.HasKey(18):
+		bmode = "noapi" // the client never asks for ApiVersions: it knows nothing of the broker
 	case f.init && f.kip: // the refusal named the range of key 18: advertised, or 0..4 when the script advertises none
 		e.mu.Lock()
 		e.cur = c
